@@ -46,7 +46,7 @@ func consFuncs(x *ExecCtx) []*ssa.Function {
 }
 
 func checkC01(w *World, r *Report) {
-	r.Explanation = "Structural clause of C01 over every module function that can run in consensus context (reachable from InitChain/BeginBlock/DeliverTx/EndBlock/Commit/Info, including go-ethereum's callbacks into the state wrapper): (D-1) no call of a node-local or nondeterministic API (wall clock, random numbers, environment, process, runtime introspection, pointer values, file reads) except one listed construct; (D-2) every `range` over a map is discharged by a recognised order-insensitive idiom — keys collected and sorted before any use, keyed copy into another map, effect executed at most once with a value independent of the iteration — or is a listed exception; the ledger's map-order-exposing iterators have no caller on that path; (D-3) every comparator handed to sort on that path ends in a full-width comparison of the element's unique key, so no tie is left to the sort algorithm (one listed exception); (D-4) no goroutine start, channel operation or select on that path, the asynchronous executor entry points have no caller there, and the executor is created with 0 workers; (D-5) every ledger item encoder reaches only encoding/json or protobuf marshalling, the protobuf messages have no map-typed field, and no floating-point value occurs on that path; (D-6) the write-back discipline (see the D-6 obligations): an overlay object mutated in place is marked in its overlay before the function that obtained it returns successfully; (D-7) node-local mempool traffic cannot reach consensus state inside the ledger: overlay isolation and no item object shared between the overlays (C18 L-1); (D-8) the age of the process is node-local: every in-memory controller field that block execution writes, or whose pointee it mutates in place, is block-scoped, rebuilt from committed state at start-up or handed over at Commit (C07 R-1), so that a restarted replica and one that was never restarted answer alike; (D-9) mempool checks and queries are node-local requests: they write no overlay, in-memory controller state (field stores, map updates, in-place 256-bit updates) or live EVM state that block execution reads (C06 X-1, X-2, X-4)."
+	r.Explanation = "Structural clause of C01 over every module function that can run in consensus context (reachable from InitChain/BeginBlock/DeliverTx/EndBlock/Commit/Info, including go-ethereum's callbacks into the state wrapper): (D-1) no call of a node-local or nondeterministic API (wall clock, random numbers, environment, process, runtime introspection, pointer values, file reads) except one listed construct; (D-2) every `range` over a map is discharged by a recognised order-insensitive idiom — keys collected and sorted before any use, keyed copy into another map, effect executed at most once with a value independent of the iteration — or is a listed exception; the ledger's map-order-exposing iterators have no caller on that path; (D-3) every comparator handed to sort on that path ends in a full-width comparison of the element's unique key, so no tie is left to the sort algorithm (one listed exception); (D-4) no goroutine start, channel operation or select on that path, the asynchronous executor entry points have no caller there, and the executor is created with 0 workers; (D-5) every ledger item encoder reaches only encoding/json or protobuf marshalling, the protobuf messages have no map-typed field, and no floating-point value occurs on that path; (D-6) the write-back discipline (see the D-6 obligations): an overlay object mutated in place is marked in its overlay before the function that obtained it returns successfully; (D-7) node-local mempool traffic cannot reach consensus state inside the ledger: overlay isolation and no item object shared between the overlays (C18 L-1); (D-8) the age of the process is node-local: every in-memory controller field that block execution writes, or whose pointee it mutates in place, is block-scoped, rebuilt from committed state at start-up or handed over at Commit (C07 R-1), so that a restarted replica and one that was never restarted answer alike; (D-9) mempool checks and queries are node-local requests: they write no overlay, in-memory controller state (field stores, map updates, in-place 256-bit updates) or live EVM state that block execution reads (C06 X-1, X-2, X-4). An object taken from a sync.Pool (fresh or recycled, by this node's GC and scheduling) counts under D-1 unless it is overwritten as a whole before use."
 	r.NotCovered = "nondeterminism inside dependencies (iavl, go-ethereum, encoding/json, protobuf); data races; different Go releases on different replicas (sort algorithm on non-total comparators, map iteration is never relied on); equality of the values computed."
 	x := NewExecCtx(w)
 	fns := consFuncs(x)
